@@ -663,6 +663,44 @@ func main() {
 			n = g.typed(kinds[r.Intn(len(kinds))], pts, 0)
 			shapesHist["bigchain"]++
 			sizes["41-200"]++
+		case i%30 == 17:
+			// a Polygon (sometimes wrapped) whose exterior ring is a strictly convex counter-clockwise
+			// polygon with ONE extra vertex strictly inside it, i.e. one reflex vertex, placed at the ring's
+			// start/closing position (2 of 3), elsewhere, and in both windings: every consecutive triple that
+			// does not wrap around the closing vertex turns left, so only a test of the wrap-around turn
+			// (or a real hull computation) sees that the ring is not convex
+			class = "reflexstart"
+			a, b := r.Range(1, 6), r.Range(1, 6)
+			oct := [][2]int{{a, 0}, {a + b, 0}, {2*a + b, a}, {2*a + b, a + b}, {a + b, 2*a + b}, {a, 2*a + b}, {0, a + b}, {0, a}}
+			ox, oy := r.Range(-20, 20), r.Range(-20, 20)
+			var cv [][2]int
+			for j, p := range oct {
+				if j%2 == 0 || r.Chance(3, 4) { // at least the four even corners: the centre stays strictly inside
+					cv = append(cv, [2]int{2*p[0] + ox, 2*p[1] + oy})
+				}
+			}
+			c := [2]int{2*a + b + ox + r.Range(-1, 1)*(a/2), 2*a + b + oy + r.Range(-1, 1)*(a/2)}
+			rot := r.Intn(len(cv))
+			cv = append(append([][2]int{}, cv[rot:]...), cv[:rot]...)
+			pts := append([][2]int{c}, cv...)
+			if r.Chance(1, 3) {
+				k := r.Intn(len(pts))
+				pts = append(append([][2]int{}, pts[k:]...), pts[:k]...)
+			}
+			if r.Chance(1, 3) {
+				for x, y := 0, len(pts)-1; x < y; x, y = x+1, y-1 {
+					pts[x], pts[y] = pts[y], pts[x]
+				}
+			}
+			n = &lib.Node{Kind: lib.KPoly, CT: g.ct, Kids: []*lib.Node{g.ringNode(pts)}}
+			switch r.Intn(5) {
+			case 0:
+				n = &lib.Node{Kind: lib.KMPoly, CT: g.ct, Kids: []*lib.Node{n}}
+			case 1:
+				n = &lib.Node{Kind: lib.KColl, CT: g.ct, Kids: []*lib.Node{n}}
+			}
+			shapesHist["reflexstart"]++
+			sizes["4-12"]++
 		case i%20 == 19:
 			class = "empty"
 			n = g.typed(lib.Kind(r.Intn(7)), nil, 0)
